@@ -685,3 +685,14 @@ Proof.
     do 6 (destruct a as [|a]; [do 6 (destruct b as [|b]; [do 6 (destruct c as [|c]; [revert H1 H2; cbn; auto; discriminate|]); lia|]); lia|]).
     lia.
 Qed.
+
+(** an observation: `issubclass` between classes of the family is NOT transitive once a class with
+    `...` stands in the middle (raised failures never have such a class, handlers are only ever on the
+    right-hand side, so no handler verdict is affected):
+    Concurrent[A, D] <= Concurrent[A, ...] <= Concurrent[A]  but not  Concurrent[A, D] <= Concurrent[A] *)
+Lemma issub_transitive_refuted :
+  exists a b c, issub hier_sub a b = true /\ issub hier_sub b c = true /\ issub hier_sub a c = false.
+Proof.
+  exists (Spec [Plain 0; Plain 3] false), (Spec [Plain 0] true), (Spec [Plain 0] false).
+  vm_compute. auto.
+Qed.
